@@ -444,8 +444,25 @@ def part_a(tier: str) -> list[dict]:
 
 
 def part_b(tier: str) -> list[dict]:
-    """Task-failure propagation through the simulated runtime (E3) - appended by the Part B author."""
-    return []
+    """Task-failure propagation through the simulated runtime (E3, vf/rtsim.py): a task at some position of a
+    task tree raises; the ERROR message races with RESULTs under every schedule within K delays; the real
+    Compiler.result() must raise carrying the original message, never return a value, never block."""
+    from harness.rt_entry import ob
+    obs = []
+    if tier == 'quick':
+        for topo in ('flat1', 'flat2'):
+            for sh in ('raise_leaf', 'raise_nested'):
+                obs.append(ob('B/msg/%s/%s/K1' % (topo, sh), topo, [sh], 'tables', 1, 200))
+    else:
+        for topo in ('flat1', 'flat2', 'flat3', 'mgr2x1', 'mgr1x2'):
+            for sh in ('raise_leaf', 'raise_nested'):
+                obs.append(ob('B/msg/%s/%s/K2' % (topo, sh), topo, [sh], 'tables', 2, 3000, maxrank=3))
+        obs.append(ob('B/msg/flat2/raise+other-client/K2', 'flat2', ['raise_leaf', 'map2'], 'tables', 2, 3000))
+        obs.append(ob('B/line/flat2/raise_leaf/K1', 'flat2', ['raise_leaf'], 'tables', 1, 3000, line=True, maxrank=1))
+    return obs
+
+
+from harness.rt_entry import sim  # noqa: E402,F401  (entry function of the part B obligations)
 
 
 def obligations(tier: str) -> list[dict]:
